@@ -352,7 +352,7 @@ def build(x):
     nxt.insert_after('Some(item) => {', HINT_PULLED)
     nxt.insert_before('return StreamElement::Terminate;', 'proof { assert(Self::step(old(self), self, StreamElement::Terminate, taken, fake)); }   // #obl:start.step_contract.terminate\n                ')
     nxt.insert_before('return StreamElement::FlushAndRestart;', HINT_RESET + 'proof { assert(Self::step(old(self), self, StreamElement::FlushAndRestart, taken, fake)); }   // #obl:start.step_contract.flush_and_restart\n                ')
-    nxt.insert_before(re.compile(r'return \w+;'), 'proof { assert(Self::step(old(self), self, @{msg}, taken, fake)); }   // #obl:start.step_contract.element\n                ')
+    nxt.insert_before(re.compile(r'return \w+;'), 'proof { assert(Self::step(old(self), self, §msg§, taken, fake)); }   // #obl:start.step_contract.element\n                ')
     nxt.insert_before('self.watermark_frontier.update(sender, Timestamp::MAX);', 'let ghost front_before = self.watermark_frontier.front();\n                                    ')
     nxt.insert_after('self.watermark_frontier.update(sender, Timestamp::MAX);', HINT_FR_ARM)
     nxt.insert_before(re.compile(r'self\.missing_flush_and_restart\s*(?:-=\s*1|=\s*self\.missing_flush_and_restart\s*-\s*1);'), '// a replica that ended its iteration no longer holds the frontier back\n                                assert(self.watermark_frontier.entries()[sender] == Some(Timestamp::MAX));   // #obl:start.ended_replica_no_longer_holds_back_the_frontier\n                                ')
